@@ -938,7 +938,7 @@ Section Locked.
     pose proof (fun x => countb_upd_nth l_holds ls i lo x E) as HK.
     pose proof (fun x => countb_upd_nth l_counted ls i lo x E) as HC.
     pose proof (fun x => countb_upd_nth l_created ls i lo x E) as HD.
-    destruct lo as [pc fl]. destruct sh as [n lk]. unfold lstep. cbn [l_pc l_fault q_n q_lock] in *.
+    destruct lo as [pc fl]. destruct sh as [n lk]. unfold lstep, lstep_gen. cbn [l_pc l_fault q_n q_lock andb] in *.
     destruct pc.
     - match goal with |- context [upd_nth i ?x ls] => specialize (HK x); specialize (HC x); specialize (HD x) end.
       cbn in HK, HC, HD |- *. lia.
@@ -956,6 +956,8 @@ Section Locked.
       cbn in HK, HC, HD |- *. destruct lk; lia.
     - match goal with |- context [upd_nth i ?x ls] => specialize (HK x); specialize (HC x); specialize (HD x) end.
       cbn in HK, HC, HD |- *. destruct lk; lia.
+    - match goal with |- context [upd_nth i ?x ls] => specialize (HK x); specialize (HC x); specialize (HD x) end.
+      cbn in HK, HC, HD |- *. lia.
     - match goal with |- context [upd_nth i ?x ls] => specialize (HK x); specialize (HC x); specialize (HD x) end.
       cbn in HK, HC, HD |- *. lia.
     - match goal with |- context [upd_nth i ?x ls] => specialize (HK x); specialize (HC x); specialize (HD x) end.
@@ -993,12 +995,27 @@ Qed.
 Lemma quota_locked_step_count max lo sh lo' sh' :
   lstep max lo sh = (lo', sh') -> q_n sh' <> q_n sh -> l_pc lo = LCounted /\ l_pc lo' = LDoneHeld /\ q_n sh' = S (q_n sh).
 Proof.
-  destruct lo as [pc fl]. unfold lstep. cbn [l_pc l_fault]. intros H Hn.
+  destruct lo as [pc fl]. unfold lstep, lstep_gen. cbn [l_pc l_fault andb]. intros H Hn.
   destruct pc; try (injection H as <- <-; cbn in Hn; congruence).
   - destruct (q_lock sh); injection H as <- <-; cbn in Hn; congruence.
   - destruct fl; [|destruct (max <=? q_n sh)]; injection H as <- <-; cbn in Hn; congruence.
   - injection H as <- <-. cbn. auto.
 Qed.
+
+(* acquire = SetNX; on refusal Exists; gone => let in without the marker: three requests of one client at limit-2 occupancy,
+   A holds the marker, B's SetNX is refused, A finishes and releases, B's Exists finds the marker gone, C's SetNX succeeds —
+   B and C are both between count and create: 3 active entries under limit 2 *)
+Lemma quota_recheck_refuted :
+  exists sched,
+    let s := run _ _ (lstep_gen true 2) ({| q_n := 0; q_lock := false |}, [l_new false; l_new false; l_new false]) sched in
+    q_n (fst s) = 3 /\ map l_pc (snd s) = [LCreated; LDoneHeld; LDoneHeld].
+Proof. exists [0; 0; 1; 1; 0; 0; 0; 1; 1; 2; 2; 2; 1; 2]. vm_compute. auto. Qed.
+
+(* the code on the same schedule: B is answered Conflict and only A and C create *)
+Lemma quota_no_recheck_witness :
+  let s := lrun 2 {| q_n := 0; q_lock := false |} [l_new false; l_new false; l_new false] [0; 0; 1; 1; 0; 0; 0; 1; 1; 2; 2; 2; 1; 2; 2] in
+  fst s = {| q_n := 2; q_lock := false |} /\ map l_pc (snd s) = [LCreated; LBusy; LCreated].
+Proof. vm_compute. auto. Qed.
 
 Example quota_locked_witness :
   let s := lrun 2 {| q_n := 1; q_lock := false |} [l_new false; l_new false; l_new true]
